@@ -17,6 +17,7 @@ import (
 
 type HarnessSpec struct {
 	Fn       string
+	Pkg      string // package dir of this harness when it differs from the check's
 	Quick    map[string]int
 	Thorough map[string]int
 	Witness  []string // rt.Reach ids that must be covered (vacuity guard)
@@ -108,7 +109,11 @@ type replayFile struct {
 }
 
 func writeReplay(spec *CheckSpec, hs *HarnessSpec, v Violation, outcome string) (string, error) {
-	rf := replayFile{Property: spec.ID, Pkg: spec.Pkg, Harness: v.Harness, Params: v.Params, Kind: v.Kind, ID: v.ID, Detail: v.Detail, Inputs: v.Inputs, Rendered: inputsString(v.Inputs), Native: hs.Native, Outcome: outcome, Observed: v.Obs}
+	pkg := spec.Pkg
+	if hs.Pkg != "" {
+		pkg = hs.Pkg
+	}
+	rf := replayFile{Property: spec.ID, Pkg: pkg, Harness: v.Harness, Params: v.Params, Kind: v.Kind, ID: v.ID, Detail: v.Detail, Inputs: v.Inputs, Rendered: inputsString(v.Inputs), Native: hs.Native, Outcome: outcome, Observed: v.Obs}
 	b, _ := json.MarshalIndent(rf, "", " ")
 	h := sha256.Sum256(b)
 	dir := filepath.Join(verifDir, "replays")
@@ -154,7 +159,13 @@ func cmdCheck(args []string) int {
 		fmt.Printf("INCONCLUSIVE property=%s %s\n", spec.ID, msg)
 		return 2
 	}
-	prog, err := loadProgram([]string{spec.Pkg})
+	pkgs := []string{spec.Pkg}
+	for _, h := range spec.Harnesses {
+		if h.Pkg != "" && h.Pkg != spec.Pkg {
+			pkgs = append(pkgs, h.Pkg)
+		}
+	}
+	prog, err := loadProgram(pkgs)
 	if err != nil {
 		return fail("cannot load /repo with harness overlay: " + truncStr(err.Error(), 2000))
 	}
@@ -175,7 +186,11 @@ func cmdCheck(args []string) int {
 		if (*tier == "quick" && hs.ThoroughOnly) || (*tier == "thorough" && hs.QuickOnly) {
 			continue
 		}
-		entry := prog.Func(targetModule+"/"+spec.Pkg, hs.Fn)
+		hpkg := spec.Pkg
+		if hs.Pkg != "" {
+			hpkg = hs.Pkg
+		}
+		entry := prog.Func(targetModule+"/"+hpkg, hs.Fn)
 		if entry == nil {
 			problems = append(problems, "harness function missing: "+hs.Fn)
 			continue
@@ -207,7 +222,7 @@ func cmdCheck(args []string) int {
 		}
 		// confirm violations and validate the translator
 		if hs.Native {
-			nv, err := ValidateNative(spec.Pkg, res, nil)
+			nv, err := ValidateNative(hpkg, res, nil)
 			if err != nil {
 				problems = append(problems, hs.Fn+": native replay failed: "+truncStr(err.Error(), 1500))
 			} else {
